@@ -668,3 +668,162 @@ def _(c):
         OB = opt_sort(z3.BoolSort())
         return s.self.openpgp_signed == OB.some(z3.BoolVal(False))
     c.exc_ensures('never-signed-when-loading-fails', 'BaseException', not_signed_on_failure, props=['C04', 'C05'])
+
+
+# --------------------------------------------------------------------------
+# to_list / dump (C14, C12, C08)
+
+ENTRY_HEAP = ('__class__', 'path', 'aux_path', 'size', 'checksums', 'ts')
+
+
+def _entry_tokens_fn(it):
+    sorts = [z3.IntSort()] + [z3.ArraySort(z3.IntSort(), it.engine.field_type(f).sort()) for f in ENTRY_HEAP]
+    return z3.Function('entry_tokens', *(sorts + [SeqSS]))
+
+
+def entry_tokens(it, ref, heap):
+    from vp.contract import initial_array
+    arrs = []
+    for f in ENTRY_HEAP:
+        a = heap.get(f)
+        if a is None:
+            a = initial_array(it.engine, f)
+        arrs.append(a)
+    return _entry_tokens_fn(it)(ref, *arrs)
+
+
+py_join = z3.Function('py_join', SS, SeqSS, SS)
+
+
+def entry_line(it, ref, heap):
+    return z3.Concat(py_join(STR(' '), entry_tokens(it, ref, heap)), STR('\n'))
+
+
+def _to_list_model(it, bound, node):
+    it.engine.assumed.add('to_list() of an entry is a function of the entry (entry_tokens); its text is '
+                          'covered by the codec lemmas / bounded round-trip checks, not by this contract')
+    me = bound['self']
+    return VCell(VSeq(entry_tokens(it, me.t, it.ctx.heap), Str, 'list'), 'list')
+
+
+for _cn in ('ManifestEntryTIMESTAMP', 'ManifestEntryIGNORE', 'ManifestEntryMANIFEST', 'ManifestEntryDATA',
+            'ManifestEntryDIST', 'ManifestEntryEBUILD', 'ManifestEntryMISC', 'ManifestEntryAUX'):
+    @contract('gemato/manifest.py', _cn + '.to_list', props=['C14', 'C12', 'C08'])
+    def _(c):
+        c.params(self=Entry)
+        c.trusted = True
+        c.model = _to_list_model
+
+
+dump_text = S.Fold('dump_text', SS, init=lambda env: z3.StringVal(''),
+                   step=lambda env, acc, e, idx: z3.Concat(acc, entry_line(env._it, e.ref, e._heap)),
+                   heap_fields=ENTRY_HEAP, objects=True)
+
+
+@contract('gemato/manifest.py', 'ManifestFile.dump', props=['C14', 'C12', 'C08', 'C10'])
+def _(c):
+    c.params(self=MF, f=SinkT(), sign_openpgp=Opt(Bool), openpgp_keyid=Opt(Str), openpgp_env=Opt(Any), sort=Bool)
+    c.returns(NoneT)
+    c.only_raises('AssertionError', '<opaque>')
+    c.note('AssertionError: signing requested without an OpenPGP environment (API misuse); '
+           '<opaque>: whatever openpgp_env.clear_sign_file raises (OpenPGPSigningFailure)')
+
+    def setup(it, fr, bound):
+        def sorted_hook(itp, c_, key, rev, n):
+            # A-sort: sorted(entries) is a permutation of entries (ordering: see the __lt__ lemmas)
+            if isinstance(c_, VSeq) and isinstance(c_.ety, Obj):
+                f = z3.Function('py_sorted_entries', c_.t.sort(), c_.t.sort())
+                itp.engine.assumed.add('A-sort: sorted(entries) is a permutation ordered by __lt__')
+                r = f(c_.t)
+                itp.ctx.assume(z3.Length(r) == z3.Length(c_.t))
+                return VCell(VSeq(r, c_.ety, 'list'), 'list')
+            return None
+        it.engine.sorted_hook = sorted_hook
+
+        def attr_hook(itp, obj, name, node):
+            if name != 'clear_sign_file':
+                return None
+
+            def csf(itq, a, k, n):
+                itq.ctx.ghost.setdefault('sign_calls', []).append((a, k, dict(itq.ctx.heap)))
+                d = itq.ctx.choose(2, 'clear_sign_file-outcome')
+                if d == 1:
+                    raise PyRaise(VExc('BaseException', [], {'opaque': True}, line=getattr(n, 'lineno', None)))
+                # gpg's output goes to outf: an arbitrary text (A-gpg)
+                outf = a[1]
+                cur = itq.ctx.read_field(outf.t, '_written')
+                itq.ctx.write_field(outf.t, '_written',
+                                    VStr(z3.Concat(cur.t, z3.Function('gpg_clearsign', SS, SS)(
+                                        itq.ctx.read_field(a[0].t, '_written').t))))
+                return NONE
+            f_ = VFunc('openpgp_env.clear_sign_file', csf)
+            f_.bind = False
+            return f_
+        it.engine.opaque_attr_hook = attr_hook
+    c.setup = setup
+
+    def modifies(it, bound):
+        ctx = it.ctx
+        me, f = bound['self'], ctx.force(bound['f'])
+        ty = it.engine.field_type('entries')
+        ctx.heap['entries'] = z3.Store(ctx.field_array('entries'), me.t, ctx.fresh_const('dump!entries', ty.sort()))
+        ctx.heap['_written'] = z3.Store(ctx.field_array('_written'), f.t, ctx.fresh_const('dump!written', SS))
+    c.modifies(modifies)
+
+    c.loop(1, header='for e in self.entries', havoc_fields=['_written'],
+           inv=[('written-so-far', lambda s: z3.And(
+               s.f._written == z3.Concat(s.old.f._written, dump_text(s, s.seq, s.i)),
+               s.seq == s.self.entries))],
+           light_inv=[])
+
+    def sign_decision(s):
+        OBo = opt_sort(z3.BoolSort())
+        so = opt_term_bool(s.sign_openpgp)
+        return z3.If(OBo.is_none(so), s.old.self.openpgp_signed == OBo.some(z3.BoolVal(True)), OBo.val(so))
+
+    def plain_when_unsigned(s):
+        E = s.self.entries
+        unsigned = z3.Not(sign_decision(s))
+        calls = s.ghost('sign_calls', [])
+        if calls:
+            return z3.Not(unsigned)
+        return z3.And(unsigned, s.f._written == z3.Concat(s.old.f._written, dump_text(s, E, z3.Length(E))))
+    c.ensures('unsigned-dump-writes-exactly-the-entry-lines', plain_when_unsigned, internal=True)
+
+    def signed_text(s):
+        calls = s.ghost('sign_calls', [])
+        if not calls:
+            return True
+        a, k, heap = calls[-1]
+        E = s.self.entries
+        data_ref = a[0].t
+        written = z3.Select(heap['_written'], data_ref)
+        kid = k.get('keyid')
+        return z3.And(len(calls) == 1, sign_decision(s), a[1].t == s.f.ref,
+                      written == dump_text(s, E, z3.Length(E)),
+                      s.f._written == z3.Concat(s.old.f._written, z3.Function('gpg_clearsign', SS, SS)(written)),
+                      z3.BoolVal(kid is not None))
+    c.ensures('signing-covers-exactly-the-written-entries', signed_text, internal=True)
+
+    def caller_view(s):
+        """what callers may rely on: plain text iff no signing was decided"""
+        E = s.self.entries
+        plain = z3.Concat(s.old.f._written, dump_text(s, E, z3.Length(E)))
+        signed = z3.Concat(s.old.f._written, z3.Function('gpg_clearsign', SS, SS)(dump_text(s, E, z3.Length(E))))
+        return z3.If(sign_decision(s), s.f._written == signed, s.f._written == plain)
+    c.ensures('text-written', caller_view)
+    c.ensures('entries-kept-unless-sorting', lambda s: z3.Or(s.sort, s.self.entries == s.old.self.entries), props=['C10'])
+
+
+def opt_term_bool(x):
+    from vp.contract import UnionView
+    OBo = opt_sort(z3.BoolSort())
+    if x is None:
+        return OBo.none
+    if isinstance(x, UnionView):
+        t = None
+        for g, a in reversed(x.v.alts):
+            e = OBo.none if isinstance(a, VNone) else OBo.some(a.t)
+            t = e if t is None else z3.If(g, e, t)
+        return t
+    return OBo.some(x)
